@@ -15,10 +15,11 @@ type PEOpts struct {
 	MaxSectionSize int
 	MaxTrailing    int
 	Table          bool // allow an existing certificate table
+	Big            bool // one image in eight is large (tens of KiB) with a section that ends exactly where the hashed stream reaches a multiple of 32 KiB (the chunk size of io.Copy)
 }
 
 // DefaultPE is the C01 bound: <= 8 sections, images of a few KiB.
-var DefaultPE = PEOpts{MaxSections: 8, MaxSectionSize: 600, MaxTrailing: 64, Table: true}
+var DefaultPE = PEOpts{MaxSections: 8, MaxSectionSize: 600, MaxTrailing: 64, Table: true, Big: true}
 
 // SmallPE gives images of at most ~2 KiB (exhaustive per-byte work, signing).
 var SmallPE = PEOpts{MaxSections: 4, MaxSectionSize: 120, MaxTrailing: 24, Table: true}
@@ -66,11 +67,16 @@ func PEImage(o PEOpts) *rapid.Generator[[]byte] {
 		sizeOfHeaders := headersEnd + hdrPad
 		gaps := rapid.IntRange(0, 3).Draw(t, "gaps") == 0
 
+		big := o.Big && nsec > 0 && rapid.IntRange(0, 7).Draw(t, "bigimage") == 0
+		bigAt := 0
+		if big {
+			bigAt = rapid.IntRange(0, nsec-1).Draw(t, "bigat")
+		}
 		type sec struct{ ptr, size uint32 }
 		secs := make([]sec, nsec)
 		cursor := sizeOfHeaders
 		for i := range secs {
-			if rapid.IntRange(0, 3).Draw(t, "zerosize") == 0 {
+			if rapid.IntRange(0, 3).Draw(t, "zerosize") == 0 && !(big && i == bigAt) {
 				var ptr uint32
 				switch rapid.IntRange(0, 3).Draw(t, "zptr") {
 				case 0:
@@ -89,6 +95,14 @@ func PEImage(o PEOpts) *rapid.Generator[[]byte] {
 				cursor += rapid.IntRange(0, 32).Draw(t, "gap")
 			}
 			size := rapid.IntRange(1, o.MaxSectionSize).Draw(t, "secsize")
+			if big && i == bigAt {
+				// the section ends at file offset 32768*k + 12: after the 12 excluded header bytes (checksum,
+				// directory entry) the hashed stream is then exactly at a multiple of 32 KiB
+				k := rapid.IntRange(1, 2).Draw(t, "k32")
+				if end := 32768*k + 12; end > cursor {
+					size = end - cursor
+				}
+			}
 			secs[i] = sec{ptr: uint32(cursor), size: uint32(size)}
 			cursor += size
 		}
